@@ -132,6 +132,7 @@ def _ops_of(e):
 
 # --------------------------------------------------------------------------- jobs
 
+@common.job
 def job_expr(job):
     ctx, exprs = job
     stats, viols = {}, []
@@ -159,6 +160,7 @@ def job_expr(job):
     return stats, viols
 
 
+@common.job
 def job_ttc(job):
     exprs = job
     stats, viols = {}, []
@@ -174,6 +176,7 @@ MULT_FORMS = {'1': (1, 1), '0..1': (0, 1), '*': (0, None), '1..*': (1, None), '0
               '2': (2, 2), '2..3': (2, 3)}
 
 
+@common.job
 def job_misc(_job):
     stats, viols = {}, []
     # (c) every pair of multiplicity source forms
@@ -248,6 +251,7 @@ def layout_program():
     return decls
 
 
+@common.job
 def job_layouts(_job):
     stats, viols = {}, []
     decls = layout_program()
@@ -301,6 +305,7 @@ def job_layouts(_job):
     return stats, viols
 
 
+@common.job
 def job_mar(name):
     stats, viols = {}, []
     sp = langs.mar_spec(os.path.join(sandbox.TESTDATA, name))
